@@ -369,6 +369,11 @@ func evalC11(c c11Case, o *Obs) error {
 			return fmt.Errorf("%s: extracted hash %d is not the chosen transaction", desc, i)
 		}
 	}
+	// a wallet that verifies the same proof object twice gets the same answer twice
+	if again := pb.ExtractMatches(); again == nil || h32(*again) != root || !u32Equal(pb.GetItems(), want) || len(pb.GetMatches()) != len(wantHashes) {
+		return fmt.Errorf("%s: a second ExtractMatches on the same object gives root %v, positions %v (%d hashes); the first gave the block's root and %d matches",
+			desc, again, clipU32(pb.GetItems()), len(pb.GetMatches()), len(want))
+	}
 	rroot, rm, why := refPMTExtract(msg.Transactions, toH32(msg.Hashes), msg.Flags)
 	if why != "" || rroot != root || len(rm) != len(want) {
 		return fmt.Errorf("%s: reference extractor: reason %q root ok=%v matches %d", desc, why, rroot == root, len(rm))
